@@ -1,5 +1,5 @@
 # C19 — knee-evaluation scores obey their accounting identities
-import math, random
+import math, random, json
 from core import *
 import gen
 
@@ -288,13 +288,73 @@ class C19:
         c['skip'] = 'timeout'
         return c
 
-    def run_impl(self, c):
+    @staticmethod
+    def side_table(points, knees, expected, strategy):
+        """oracle table from FRESH float64 copies: np.linalg.norm(b - p, axis=1) for the sides the strategy picks"""
+        import numpy as np
+        pts = np.array(points, dtype=float)
+        kp = pts[np.array(knees, dtype=int)]
+        exp = np.array(expected, dtype=float)
+        if strategy == 'knees':
+            a, b = kp, exp
+        elif strategy == 'expected':
+            a, b = exp, kp
+        elif strategy == 'best':
+            a, b = (exp, kp) if len(exp) <= len(kp) else (kp, exp)
+        else:
+            a, b = (exp, kp) if len(exp) >= len(kp) else (kp, exp)
+        tab = []
+        for i, p in enumerate(a):
+            d = np.linalg.norm(b - p, axis=1)
+            for j in range(len(b)):
+                tab.append([i, j, fnum(d[j])])
+        return tab
+
+    def run_seq(self, c):
         import numpy as np
         import kneeliverse.evaluation as ev
         c = dict(c)
-        pts = np.array(c['points'], dtype=float)
+        dt = np.int64 if c.get('int64') else float
+        steps = [dict(st) for st in c['steps']]
+        # the model's inputs and oracle tables first, from separate fresh copies
+        for st in steps:
+            st['tab'] = [] if st['fn'] == 'cm' else self.side_table(st['points'], st['knees'], st['expected'], st['strategy'])
+        # ONE object per argument for the whole sequence; refills are done in place
+        buf = np.array(steps[0]['points'], dtype=dt)
+        kb = np.array(steps[0]['knees'], dtype=int)
+        eb = np.array(steps[0]['expected'], dtype=dt)
+        cur = (steps[0]['points'], steps[0]['knees'], steps[0]['expected'])
+        fns = {'cm': ev.cm, 'mae': ev.mae, 'mse': ev.mse, 'rmse': ev.rmse, 'rmspe': ev.rmspe}
+        for st in steps:
+            if st['points'] != cur[0]:
+                buf[...] = np.array(st['points'], dtype=dt)
+            if st['knees'] != cur[1]:
+                kb[...] = np.array(st['knees'], dtype=int)
+            if st['expected'] != cur[2]:
+                eb[...] = np.array(st['expected'], dtype=dt)
+            cur = (st['points'], st['knees'], st['expected'])
+            if st['fn'] == 'cm':
+                s2, m = call(ev.cm, buf, kb, eb, st['t'])
+                try:
+                    st['out'] = [int(m[0][0]), int(m[0][1]), int(m[1][0]), int(m[1][1])] if s2 == 'ok' else None
+                except Exception:
+                    st['out'] = None
+            else:
+                s2, v = call(fns[st['fn']], buf, kb, eb, ev.Strategy[st['strategy']])
+                st['out'] = fnum(v) if s2 == 'ok' else None
+        c['steps'] = steps
+        return c
+
+    def run_impl(self, c):
+        import numpy as np
+        import kneeliverse.evaluation as ev
+        if c.get('kind') == 'seq':
+            return self.run_seq(c)
+        c = dict(c)
+        dt = np.int64 if c.get('int64') else float
+        pts = np.array(c['points'], dtype=dt)
         knees = np.array(c['knees'], dtype=int)
-        exp = np.array(c['expected'], dtype=float)
+        exp = np.array(c['expected'], dtype=dt)
         S = ev.Strategy[c['strategy']]
         st, m = call(ev.cm, pts, knees, exp, c['t'])
         c['cm'] = None
@@ -310,27 +370,30 @@ class C19:
         for name, f in (('mae', ev.mae), ('mse', ev.mse), ('rmse', ev.rmse), ('rmspe', ev.rmspe)):
             s2, v = call(f, pts, knees, exp, S)
             c[name] = fnum(v) if s2 == 'ok' else None
-        # oracle table: the distances the package's nearest-neighbour search sees, for the sides the strategy picks
-        kp = pts[knees]
-        if c['strategy'] == 'knees':
-            a, b = kp, exp
-        elif c['strategy'] == 'expected':
-            a, b = exp, kp
-        elif c['strategy'] == 'best':
-            a, b = (exp, kp) if len(exp) <= len(kp) else (kp, exp)
-        else:
-            a, b = (exp, kp) if len(exp) >= len(kp) else (kp, exp)
-        tab = []
-        for i, p in enumerate(a):
-            st3, d = call(lambda: np.linalg.norm(b - p, axis=1))
-            for j in range(len(b)):
-                tab.append([i, j, fnum(d[j]) if st3 == 'ok' else math.nan])
-        c['tab'] = tab
+        # oracle table: the distances the nearest-neighbour search must see, for the sides the strategy picks (fresh float64 copies)
+        c['tab'] = self.side_table(c['points'], c['knees'], c['expected'], c['strategy'])
         return c
+
+    @staticmethod
+    def ctab(tab):
+        return clist(['((%s, %s), %s)' % (cnat(r[0]), cnat(r[1]), fl(r[2])) for r in tab])
+
+    def emit_step(self, st):
+        kind = {'cm': 'KCm', 'mae': 'KMae', 'mse': 'KMse', 'rmse': 'KRmse', 'rmspe': 'KRmspe'}[st['fn']]
+        if st['fn'] == 'cm':
+            cmo = copt(st.get('out'), lambda m: '(%s, %s, %s, %s)' % (cZ(m[0]), cZ(m[1]), cZ(m[2]), cZ(m[3])))
+            val = 'None'
+        else:
+            cmo = 'None'
+            val = copt(st.get('out'), fl)
+        return '(CCall %s %s %s %s %s %s %s %s %s)' % (cpts(st['points']), cnats(st['knees']), cpts(st['expected']), fl(st['t']),
+                                                        SCOQ[st['strategy']], self.ctab(st.get('tab', [])), kind, cmo, val)
 
     def emit(self, c):
         if c.get('skip'):
             return 'CScore [] [] [] 0%float SKnees [] None None None None None None None None'
+        if c.get('kind') == 'seq':
+            return 'CSeq %s' % clist([self.emit_step(st) for st in c['steps']])
         cmo = copt(c['cm'], lambda m: '(%s, %s, %s, %s)' % (cZ(m[0]), cZ(m[1]), cZ(m[2]), cZ(m[3])))
         return 'CScore %s %s %s %s %s %s %s %s %s %s %s %s %s %s' % (
             cpts(c['points']), cnats(c['knees']), cpts(c['expected']), fl(c['t']), SCOQ[c['strategy']],
@@ -339,6 +402,10 @@ class C19:
             copt(c['mae'], fl), copt(c['mse'], fl), copt(c['rmse'], fl), copt(c['rmspe'], fl))
 
     def nontrivial_key(self, c):
+        if c.get('kind') == 'seq' and not c.get('skip'):
+            st = c['steps']
+            refills = sum(1 for a, b in zip(st, st[1:]) if (a['points'], a['knees'], a['expected']) != (b['points'], b['knees'], b['expected']))
+            return ('seq', json.dumps(st, sort_keys=True, default=str)) if refills >= 1 and len({x['fn'] for x in st}) >= 2 else None
         if c.get('skip') or not c.get('cm'):
             return None
         tp, fp, fn, tn = c['cm']
@@ -349,8 +416,16 @@ class C19:
     def classify(self, c):
         if c.get('skip'):
             return {'mode': 'skipped'}
+        if c.get('kind') == 'seq':
+            st = c['steps']
+            return {'mode': c['mode'], 'dtype': 'int64' if c.get('int64') else 'float64', 'seq_calls': len(st),
+                    'seq_cm_calls': sum(1 for x in st if x['fn'] == 'cm'),
+                    'seq_point_refills': sum(1 for a, b in zip(st, st[1:]) if a['points'] != b['points']),
+                    'seq_KE_only_refills': sum(1 for a, b in zip(st, st[1:]) if a['points'] == b['points'] and (a['knees'], a['expected']) != (b['knees'], b['expected'])),
+                    'seq_mse_then_rmse': any(a['fn'] == 'mse' and b['fn'] == 'rmse' and a['points'] != b['points'] and
+                                             (a['knees'], a['expected'], a['strategy']) == (b['knees'], b['expected'], b['strategy']) for a, b in zip(st, st[1:]))}
         out = {'mode': c['mode'], 'strategy': c['strategy'], 'n': len(c['points']), 'K': len(c['knees']), 'E': len(c['expected']),
-               'family': c.get('family', '?')}
+               'family': c.get('family', '?'), 'dtype': 'int64' if c.get('int64') else 'float64'}
         if c.get('cm'):
             tp, fp, fn, tn = c['cm']
             out['tp'] = tp
@@ -361,6 +436,14 @@ class C19:
 
     def shrink(self, c):
         out = []
+        if c.get('kind') == 'seq':
+            st = c['steps']
+            for j in range(len(st)):
+                if len(st) > 1:
+                    d = dict(c)
+                    d['steps'] = [{k: v for k, v in x.items() if k not in ('out', 'tab')} for x in st[:j] + st[j + 1:]]
+                    out.append(d)
+            return out
         pts, knees, exp = c['points'], c['knees'], c['expected']
         n = len(pts)
         for j in range(len(exp)):
@@ -385,13 +468,31 @@ class C19:
         return out
 
     def sample(self, c):
+        if c.get('kind') == 'seq':
+            return {'kind': 'seq', 'int64': c.get('int64'), 'steps': c['steps'][:3]}
         keys = ['points', 'knees', 'expected', 't', 'strategy', 'mode', 'cm', 'acc', 'f1', 'mcc', 'mae', 'mse', 'rmse', 'rmspe']
         return {k: c[k] for k in keys if k in c}
 
     def describe(self, c):
-        return ('P = np.array(%s); K = np.array(%s); E = np.array(%s); m = kneeliverse.evaluation.cm(P, K, E, %r); accuracy(m), f1score(m), mcc(m); '
+        if c.get('kind') == 'seq':
+            dt = 'np.int64' if c.get('int64') else 'float'
+            lines = ['P = np.array(%s, dtype=%s); K = np.array(%s); E = np.array(%s, dtype=%s)   # the same three objects for every call'
+                     % (c['steps'][0]['points'], dt, c['steps'][0]['knees'], c['steps'][0]['expected'], dt)]
+            cur = (c['steps'][0]['points'], c['steps'][0]['knees'], c['steps'][0]['expected'])
+            for st in c['steps']:
+                if st['points'] != cur[0]:
+                    lines.append('P[...] = %s' % st['points'])
+                if st['knees'] != cur[1]:
+                    lines.append('K[...] = %s' % st['knees'])
+                if st['expected'] != cur[2]:
+                    lines.append('E[...] = %s' % st['expected'])
+                cur = (st['points'], st['knees'], st['expected'])
+                lines.append('kneeliverse.evaluation.%s(P, K, E, %s)  -> %r' % (st['fn'], repr(st['t']) if st['fn'] == 'cm' else 'Strategy.' + st['strategy'], st.get('out')))
+            return '; '.join(lines)
+        dt = ', dtype=np.int64' if c.get('int64') else ''
+        return ('P = np.array(%s%s); K = np.array(%s); E = np.array(%s%s); m = kneeliverse.evaluation.cm(P, K, E, %r); accuracy(m), f1score(m), mcc(m); '
                 'mae / mse / rmse / rmspe(P, K, E, kneeliverse.evaluation.Strategy.%s)'
-                % (c['points'], c['knees'], c['expected'], c['t'], c['strategy']))
+                % (c['points'], dt, c['knees'], c['expected'], dt, c['t'], c['strategy']))
 
 
 def fnum(v):
